@@ -8,5 +8,5 @@ mkdir -p _build/bin evidence
 (cd translator && go build -o ../_build/bin/translator .)
 _build/bin/translator /repo coq/Generated/Tables.v || cp coq/Generated/TablesRef.v coq/Generated/Tables.v
 (cd coq && coq_makefile -f _CoqProject -o Makefile >/dev/null && timeout 3000 make -j16 2>&1 | tail -n 30)
-(cd harness && cp /repo/go.sum . 2>/dev/null; go build -tags verif -o ../_build/bin/check .)
+(cd harness && cp /repo/go.sum . 2>/dev/null; go build -tags verif -o ../_build/bin/check . && go build -race -tags verif -o ../_build/bin/check_race .)
 echo "setup done"
